@@ -16,18 +16,31 @@ rescaled copy), so it also decides parameter settings whose results are as large
 "For every parameter setting" includes every setting reached on a LIVE object: the same relations are demanded after each
 step of same-object histories evaluate -> mutate the parameters -> evaluate, for every way the library offers or tolerates
 to change parameters (see RULE); the oracle is always computed from the CURRENT parameters (the values written, or, for
-mutations that go through library code, the values the networks' public attributes report afterwards)."""
+mutations that go through library code, the values the networks' public attributes report afterwards).
+
+"Every architecture" is taken literally: a fixed first block evaluates each of the 64 shapes num_visible 1..4 x num_hidden 1..4 x
+num_aux 1..4 once (a formula written for num_hidden = num_aux = num_visible can go wrong only in an asymmetric one, e.g. a
+shortcut taken when num_hidden + num_aux < num_visible), on objects built through every construction path."""
 import itertools, math
 import numpy as np
 import gen
 
-RULE = ("architectures nv,nh,na in 1..3 (quick: covering subset incl. nh != nv, na != nv, size-1 dims) / 1..4 all 64 "
-        "shapes (thorough); parameter draws from the mixture in harness/gen.py with every bias non-zero and the phase "
+RULE = ("ARCHITECTURE SWEEP (fixed first block, both tiers): EVERY architecture of the quantifier, num_visible 1..4 x num_hidden 1..4 x "
+        "num_aux 1..4 = 64 shapes, once each with the full evaluation below (all ten parameter tensors random, every bias non-zero, "
+        "phase-net auxiliary bias 0), regimes default / large_bias / branch, the CONSTRUCTION PATH (positional sizes, keyword sizes, "
+        "sizes left to their defaults, module=<PurificationRBM> whose copy becomes the phase net, DensityMatrix.autoload(file), a fresh "
+        "object that load()s a file) and the way the parameters are written in rotation offset by the seed; module= objects are written "
+        "in place and then ONE network alone is rewritten in place; the shapes with fewer latent than visible units (3,1,1) (4,1,1) "
+        "(4,1,2) (4,2,1) and a third of those with a size-1 beside a size-4 layer go on with an in-place rewrite of the biases alone "
+        "(input_distribution architecture_sweep:* / constructed_by:* count them); "
+        "random stream: architectures nv,nh,na in 1..3 (quick: covering subset incl. nh != nv, na != nv, size-1 dims, nh + na < nv, plus "
+        "one shape with a size-4 layer drawn per seed) / 1..4 all 64 shapes (thorough), construction paths in rotation; parameter draws from the mixture in harness/gen.py with every bias non-zero and the phase "
         "net's auxiliary bias 0, in three regimes: default (|bias| <~ 4), large_bias (bias magnitudes up to 30), branch "
         "(phase-net U of magnitude pi..9, so 1 + exp(z_k) visits the left half-plane); the basis is enumerated "
         "independently (itertools.product); all pairs (sigma, sigma') of basis states; call forms rho(space,space), "
         "rho(space) with default vp, rho(v,vp,expand=False), 1-D single element, rho(v) 1-D, rho(v,expand=False); "
-        "matrix form with v != vp (two row orders, rectangular k x m, off-diagonal block); probability(space), "
+        "matrix form with v != vp (two row orders, rectangular k x m, off-diagonal block); a single row as a 2-D (1, n) batch in the "
+        "matrix / paired / default-vp / diagonal forms and probability, results overwritten in place and the calls repeated; probability(space), "
         "probability(space, Z); SAME-OBJECT HISTORIES: one DensityMatrix and one set of batch tensor objects, after every "
         "mutation everything is re-evaluated against the oracle on the CURRENT parameters; mutation operators: "
         "torch-level writes of all parameters, of one network, of the biases only or of ONE parameter alone (.data =, "
@@ -40,8 +53,8 @@ RULE = ("architectures nv,nh,na in 1..3 (quick: covering subset incl. nh != nv, 
         "in-place write of the biases alone; a batch tensor of the caller and the tensor returned by "
         "generate_hilbert_space() permuted in place (copy_ / .data.copy_) between two evaluations; every returned tensor "
         "overwritten in place by the caller and each call repeated right after its own result was overwritten; batches of "
-        "65537..131075 rows gathered against the small verified results; six fixed history cases (every operator, every "
-        "parameter of every network changed alone) run first; "
+        "65537..131075 rows gathered against the small verified results; fixed history cases (every operator, every "
+        "parameter of every network changed alone; one on the 3-1-1 architecture built through module=) run first; "
         "NEAR_RANGE regime (six fixed cases run before everything else, 20 (quick) / 48 + every fifth draw of every shape "
         "(thorough) in the random stream, shapes up to 4x4x4, some continued on the same object by an in-place write of a second "
         "near-range setting): amplitude-net U and aux bias (aux), W and hidden bias (hidden) or all four (both, edge) positive "
@@ -95,7 +108,9 @@ LOG_LIM = 700.0
 def shapes(ctx):
     if ctx.thorough:
         return [(nv, nh, na) for nv in range(1, 5) for nh in range(1, 5) for na in range(1, 5)]
-    return [(1, 1, 1), (1, 2, 3), (2, 1, 1), (2, 3, 1), (2, 2, 3), (3, 1, 2), (3, 2, 1), (3, 3, 3), (2, 1, 2), (1, 3, 2)]
+    with4 = [t for t in ALL_SHAPES if 4 in t and sum(t) <= 9]
+    return [(1, 1, 1), (1, 2, 3), (2, 1, 1), (2, 3, 1), (2, 2, 3), (3, 1, 2), (3, 2, 1), (3, 3, 3), (2, 1, 2), (1, 3, 2), (3, 1, 1),
+            with4[int(ctx.rng.integers(0, len(with4)))]]
 
 
 # ------------------------------------------------------------------ independent numpy reference
@@ -393,6 +408,7 @@ def evaluate(ctx, s, am, ph, case, nontriv, desc, T=None, big=False):
     if not ctx.thorough or int(case["aux_seed"]) % 3 == 0:
         grad_modes(ctx, res, case)
     matrix_forms(ctx, res, case, arng)
+    single_row_batches(ctx, res, case, arng)
     batch_mutated_in_place(ctx, res, case, arng)
     if big:
         large_batches(ctx, res, case, arng)
@@ -546,6 +562,44 @@ def matrix_forms(ctx, res, case, arng):
                     bool(np.all(np.abs(z - Rc[sel]) <= tolm[sel])), case,
                     {"form": name, "rows": a.tolist(), "cols": b.tolist(), "worst": float(np.max(np.abs(z - Rc[sel]) / res["sc"][sel]))})
         ctx.count("matrix_form_v_ne_vp")
+
+
+def single_row_batches(ctx, res, case, arng):
+    """The degenerate batch: ONE row handed over as a 2-D (1, n) tensor, in the matrix, paired, default-vp and diagonal forms
+    and to probability; the results are overwritten in place by the caller, the same calls are repeated with the same tensor
+    objects, (the second round is compared with the entry of the rows the caller put in)."""
+    import torch
+    s, space, N, Rc, tolm, prob, rt = res["s"], res["T"]["space"], res["N"], res["Rc"], res["tolm"], res["prob"], res["rt"]
+    i, j = int(arng.integers(0, N)), int(arng.integers(0, N))
+    va, vb = space[i:i + 1].clone(), space[j:j + 1].clone()
+    va0, vb0 = va.clone(), vb.clone()
+
+    def calls():
+        return (s.rho(va, vb), s.rho(va, vb, expand=False), s.rho(va), s.rho(va, expand=False), s.probability(va))
+    for rnd in ("first call", "repeated after the caller overwrote the first results in place"):
+        ok, out = ctx.call("single-row (1, n) batches", case, calls)
+        if not ok:
+            return
+        shp = [list(x.shape) for x in out]
+        det = {"i": i, "j": j, "round": rnd, "shapes": shp, "expected shapes": [[2, 1, 1], [2, 1], [2, 1, 1], [2, 1], [1]]}
+        good = shp == det["expected shapes"]
+        if good:
+            z = [cnp(x).ravel()[0] for x in out[:4]]
+            det["got"] = [str(t) for t in z] + [float(out[4][0])]
+            det["want"] = [str(Rc[i, j]), str(Rc[i, j]), str(Rc[i, i]), str(Rc[i, i]), float(prob[i])]
+            good = (abs(z[0] - Rc[i, j]) <= tolm[i, j] and abs(z[1] - Rc[i, j]) <= tolm[i, j] and abs(z[2] - Rc[i, i]) <= tolm[i, i]
+                    and abs(z[3] - Rc[i, i]) <= rt * abs(Rc[i, i]) and math.isclose(float(out[4][0]), float(prob[i]), rel_tol=1e-9))
+        ctx.require("rho / probability of a single-row (1, n) batch == the corresponding entry of rho(space, space) / probability(space)",
+                    good, case, det)
+        with torch.no_grad():
+            for t in out:
+                try:
+                    t.mul_(0.0).add_(7.0)
+                except Exception:
+                    ctx.count("returned_tensor_not_writable")
+    if not bool((va == va0).all() and (vb == vb0).all()):
+        ctx.count("single_row_batch_tensor_changed_by_the_call")   # not demanded here: the repeated call above (same objects, entry of the ORIGINAL rows) decides
+    ctx.count("single_row_batches")
 
 
 def batch_mutated_in_place(ctx, res, case, arng):
@@ -974,16 +1028,70 @@ def apply_step(ctx, s, st, nv, nh, na):
     return s, left, True
 
 
-def run_history(ctx, nv, nh, na, steps, big_steps=(), zero_bias=False, ctor_seed=None):
+# the ways a mixed-state model of a given architecture comes into being
+CONSTRUCT = ["sizes", "module", "keywords", "autoload", "defaults", "load"]
+
+
+def construct_state(ctx, nv, nh, na, how, seed):
+    """A DensityMatrix of architecture (nv, nh, na) built through one of the construction paths: positional sizes, keyword
+    sizes, sizes left to their defaults where they equal num_visible, module=<a PurificationRBM> (the phase network is then
+    the library's copy of it), DensityMatrix.autoload(file of a donor), a fresh object that load()s a donor's file.
+    Construction itself is not this property's subject: a path that raises or yields another architecture is counted and
+    replaced by the positional one (no demand)."""
+    import torch, os
+    from qucumber.nn_states import DensityMatrix
+    from qucumber.rbm import PurificationRBM
+    torch.manual_seed(int(seed))
+    s = None
+    try:
+        if how == "keywords":
+            s = DensityMatrix(num_visible=nv, num_hidden=nh, num_aux=na, gpu=False)
+        elif how == "defaults":
+            kw = {}
+            if nh != nv:
+                kw["num_hidden"] = nh
+            if na != nv:
+                kw["num_aux"] = na
+            s = DensityMatrix(nv, gpu=False, **kw)
+        elif how == "module":
+            s = DensityMatrix(nv, module=PurificationRBM(nv, nh, na, gpu=False), gpu=False)
+        elif how in ("autoload", "load"):
+            donor = DensityMatrix(nv, nh, na, gpu=False)
+            path = os.path.join(ctx.scratch, "c02_ctor_%d_%d.pt" % (ctx.evaluations, int(seed) % 100003))
+            donor.save(path)
+            if how == "autoload":
+                s = DensityMatrix.autoload(path, gpu=False)
+            else:
+                s = DensityMatrix(nv, nh, na, gpu=False)
+                s.load(path)
+            os.remove(path)
+        if s is not None:
+            for net in NETS:
+                r = getattr(s, net)
+                if (list(r.weights_W.shape) != [nh, nv] or list(r.weights_U.shape) != [na, nv] or list(r.visible_bias.shape) != [nv]
+                        or list(r.hidden_bias.shape) != [nh] or list(r.aux_bias.shape) != [na]):
+                    ctx.count("construction_path_gave_another_architecture:" + how)
+                    s = None
+                    break
+    except Exception:
+        ctx.count("construction_path_unavailable:" + how)
+        s = None
+    if s is None:
+        torch.manual_seed(int(seed))
+        s = DensityMatrix(nv, nh, na, gpu=False)
+        how = "sizes"
+    ctx.count("constructed_by:" + how)
+    return s, how
+
+
+def run_history(ctx, nv, nh, na, steps, big_steps=(), zero_bias=False, ctor_seed=None, construct="sizes"):
     """steps: list of dicts {way, regime[, am, ph | write][, opts, torch_seed, aux_seed]}.  ONE DensityMatrix object (unless a
     step replaces it by its deep copy) and ONE set of batch tensors; after every mutation everything is evaluated again
     against the oracle computed from the CURRENT parameters: the values the harness wrote for torch-level writes, the
-    values read back from the networks' public attributes for mutations that go through library code."""
-    import torch
-    from qucumber.nn_states import DensityMatrix
+    values read back from the networks' public attributes for mutations that go through library code.  construct: the
+    construction path of the object (see construct_state)."""
     ctor_seed = int(ctx.rng.integers(0, 2 ** 31 - 1)) if ctor_seed is None else int(ctor_seed)
-    torch.manual_seed(ctor_seed)
-    s = DensityMatrix(nv, nh, na, gpu=False)
+    s, construct = construct_state(ctx, nv, nh, na, construct or "sizes", ctor_seed)
     T = make_tensors(nv, na)
     hist = []
     cur = None
@@ -998,7 +1106,7 @@ def run_history(ctx, nv, nh, na, steps, big_steps=(), zero_bias=False, ctor_seed
         if st.get("write"):
             rec["write"] = {net: {kk: np.asarray(x).tolist() for kk, x in d.items()} for net, d in st["write"].items()}
         ok, out = ctx.call("parameter mutation '%s' on a live DensityMatrix" % way,
-                           {"nv": nv, "nh": nh, "na": na, "step": k, "rewritten_by": way, "ctor_seed": ctor_seed,
+                           {"nv": nv, "nh": nh, "na": na, "step": k, "rewritten_by": way, "ctor_seed": ctor_seed, "construct": construct,
                             "history": [dict(h) for h in hist] + [rec]},
                            apply_step, ctx, s, st, nv, nh, na)
         if not ok:
@@ -1019,7 +1127,8 @@ def run_history(ctx, nv, nh, na, steps, big_steps=(), zero_bias=False, ctor_seed
         rec["am_now"], rec["ph_now"] = gen.plist(*am), gen.plist(*ph)
         hist.append(rec)
         case = {"regime": st.get("regime"), "nv": nv, "nh": nh, "na": na, "am": gen.plist(*am), "ph": gen.plist(*ph),
-                "step": k, "rewritten_by": way, "ctor_seed": ctor_seed, "history": [dict(h) for h in hist], "big": k in big_steps}
+                "step": k, "rewritten_by": way, "ctor_seed": ctor_seed, "construct": construct, "history": [dict(h) for h in hist],
+                "big": k in big_steps}
         if st.get("targets"):
             case["targets"] = rec["targets"] = [list(t) for t in st["targets"]]
         if "aux_seed" in st:
@@ -1173,9 +1282,75 @@ def fixed_histories(ctx):
     r0 = int(ctx.rng.integers(0, len(hows)))
     run_history(ctx, nv, nh, na, [full_step(ctx, nv, nh, na, "init", "default")] +
                 [partial_step(ctx, nv, nh, na, [t], hows[(r0 + i) % len(hows)]) for i, t in enumerate(SINGLES)])
+    # D: an architecture with FEWER LATENT THAN VISIBLE units, built through module=, taken through the library-level operators
+    nv, nh, na = 3, 1, 1
+    run_history(ctx, nv, nh, na, [
+        full_step(ctx, nv, nh, na, "data_copy_", "default"),
+        partial_step(ctx, nv, nh, na, [("rbm_am", "visible_bias")], "no_grad_copy_", "large_bias"),
+        lib_step("reinitialize_parameters"),
+        partial_step(ctx, nv, nh, na, BIASES, "data_copy_"),
+        full_step(ctx, nv, nh, na, "replace_network", "default"),
+        full_step(ctx, nv, nh, na, "state_load_buffer", "large_bias"),
+        full_step(ctx, nv, nh, na, "deepcopy_continue", "default"),
+        full_step(ctx, nv, nh, na, "autoload_continue", "branch"),
+    ], construct="module")
 
 
-def one_case(ctx, nv, nh, na, zero_bias=False, regime="default", ways=(), big=False):
+ALL_SHAPES = [(nv, nh, na) for nv in range(1, 5) for nh in range(1, 5) for na in range(1, 5)]      # the quantifier's 64 architectures
+SWEEP_REGIMES = ["default", "large_bias", "branch"]
+SWEEP_WRITES = ["data_copy_", "init", "no_grad_copy_", "load_state_dict", "rebind_parameter", "vector_to_parameters", "state_dict_alias_copy_"]
+
+
+def representable(am, nv):
+    """the condition under which evaluate() decides a parameter setting (results inside the double range)"""
+    sp = gen.all_states(nv)
+    top = float(np.max(-gen.np_eff_energy_p(*am, sp))) + math.log(len(sp))
+    return top <= LOG_LIM and 2 * float(np.max(np.abs(sp @ am[1].T + am[4]))) <= LOG_LIM
+
+
+def arch_class(nv, nh, na):
+    """histogram labels: the asymmetries of an architecture in which a formula written for nh = na = nv can go wrong"""
+    out = []
+    if nh + na < nv:
+        out.append("fewer_latent_than_visible")
+    if nh == na == nv:
+        out.append("symmetric")
+    out.append("aux_%s_hidden" % ("gt" if na > nh else "lt" if na < nh else "eq"))
+    out.append("aux_%s_visible" % ("gt" if na > nv else "lt" if na < nv else "eq"))
+    out.append("hidden_%s_visible" % ("gt" if nh > nv else "lt" if nh < nv else "eq"))
+    return out
+
+
+def all_architectures(ctx):
+    """EVERY architecture of the quantifier (num_visible 1..4 x num_hidden 1..4 x num_aux 1..4, 64 shapes), once each, in a
+    block that runs before any budget can matter: all ten parameter tensors drawn at random with every bias non-zero (the
+    phase net's auxiliary bias at its documented 0), regimes / construction paths / ways of writing the parameters in
+    rotation (offset by the seed), then the full evaluation against the oracle.  The architectures with fewer latent than
+    visible units ((3,1,1), (4,1,1), (4,1,2), (4,2,1)) and those with a size-1 layer beside a size-4 one go on, on the same
+    object, with an in-place rewrite of the biases alone."""
+    r = int(ctx.rng.integers(0, 1 << 20))
+    for i, (nv, nh, na) in enumerate(ALL_SHAPES):
+        regime = SWEEP_REGIMES[(i + i // 4 + i // 16 + r) % len(SWEEP_REGIMES)]
+        how = CONSTRUCT[(i + i // 4 + r // 3) % len(CONSTRUCT)]
+        way = SWEEP_WRITES[(i + r // 18) % len(SWEEP_WRITES)]
+        for attempt in range(6):
+            am, ph = draw_params(ctx, nv, nh, na, regime if attempt < 3 else "default")
+            if representable(am, nv):
+                break
+        if how == "module":                               # the phase net is the library's copy of the caller's module: written in place
+            way = ["data_copy_", "no_grad_copy_", "state_dict_alias_copy_"][(i + r) % 3]
+        steps = [{"way": way, "regime": "all_architectures:" + regime, "am": am, "ph": ph}]
+        if how == "module":                               # ... and then ONE of the two networks alone, again in place
+            net = NETS[(i // 6 + r) % 2]
+            steps.append(partial_step(ctx, nv, nh, na, [t for t in SINGLES if t[0] == net], ["no_grad_copy_", "data_copy_"][(i + r) % 2]))
+        if nh + na < nv or (4 in (nv, nh, na) and 1 in (nv, nh, na) and (i + r) % 3 == 0):
+            steps.append(partial_step(ctx, nv, nh, na, BIASES, ["data_copy_", "no_grad_copy_", "rebind_parameter"][(i + r) % 3]))
+        for lab in arch_class(nv, nh, na):
+            ctx.count("architecture_sweep:" + lab)
+        run_history(ctx, nv, nh, na, steps, construct=how)
+
+
+def one_case(ctx, nv, nh, na, zero_bias=False, regime="default", ways=(), big=False, construct="sizes"):
     """A fresh object, parameters written once (step 0), then the steps of one mutation operator + full re-evaluation per
     entry of ways."""
     if zero_bias:                                       # fresh-initialisation regime of the test-suite
@@ -1186,12 +1361,13 @@ def one_case(ctx, nv, nh, na, zero_bias=False, regime="default", ways=(), big=Fa
     steps = [{"way": "init", "regime": regime, "am": am, "ph": ph}]
     for w in ways:
         steps.extend(op_steps(ctx, nv, nh, na, w))
-    run_history(ctx, nv, nh, na, steps, big_steps=((0, len(steps) - 1) if big else ()), zero_bias=zero_bias)
+    run_history(ctx, nv, nh, na, steps, big_steps=((0, len(steps) - 1) if big else ()), zero_bias=zero_bias, construct=construct)
 
 
 def run(ctx):
     # fixed cases that always run first: same-object histories with every mutation operator, then all four in-place ways of
     # rewriting the parameters with batches of more than 65536 rows
+    all_architectures(ctx)
     fixed_near_range(ctx)
     fixed_histories(ctx)
     for (nv, nh, na) in [(2, 2, 2), (1, 1, 1), (3, 2, 1)]:
@@ -1207,7 +1383,7 @@ def run(ctx):
                 ways = [NEW_OPS[(k // 3) % len(NEW_OPS)]]
             else:
                 ways = ()
-            one_case(ctx, nv, nh, na, regime=regs[d % len(regs)], ways=ways, big=(d % 6 == 4))
+            one_case(ctx, nv, nh, na, regime=regs[d % len(regs)], ways=ways, big=(d % 6 == 4), construct=CONSTRUCT[(k + k // 6) % len(CONSTRUCT)])
             k += 1
     one_case(ctx, 2, 2, 2, zero_bias=True)
     one_case(ctx, 3, 1, 2, zero_bias=True)
@@ -1245,6 +1421,7 @@ def replay(ctx, rec):
         steps[-1]["aux_seed"] = case["aux_seed"]
     steps = [{k: v for k, v in st.items() if not (k == "aux_seed" and v is None)} for st in steps]
     print("replay of density matrix nv=%d nh=%d na=%d, history of %d parameter mutations on one object: %s" % (nv, nh, na, len(steps), [st["way"] for st in steps]))
-    run_history(ctx, nv, nh, na, steps, big_steps=((len(steps) - 1,) if case.get("big") else ()), ctor_seed=case.get("ctor_seed"))
+    run_history(ctx, nv, nh, na, steps, big_steps=((len(steps) - 1,) if case.get("big") else ()), ctor_seed=case.get("ctor_seed"),
+                construct=case.get("construct") or "sizes")
     for f in ctx.failures[:5]:
         print("FAILS:", f["what"], f["detail"][:300])
